@@ -36,6 +36,14 @@ SentOK(h) == Orphans(h) = {} /\ Types(h, "psent") = Types(h, "dsent")
 SendFailedShape(h) == /\ Orphans(h) # {}
                       /\ \A j \in Orphans(h) : \A x \in Kind(h, "dsent") : x < j
                       /\ Cardinality(Kind(h, "psent")) = Cardinality(Kind(h, "dsent")) + Cardinality(Orphans(h))
+\* every PDU the state machine acted on was notified as received: the PDU-receipt transitions (Evt19 apart: an invalid PDU may
+\* have no decoded form) are, in order, matched by EVT_PDU_RECV notifications of the same PDU types that came before them
+RecvType(ev) == CASE ev = 6 -> 1 [] ev = 3 -> 2 [] ev = 4 -> 3 [] ev = 10 -> 4 [] ev = 12 -> 5 [] ev = 13 -> 6 [] ev = 16 -> 7 [] OTHER -> 0
+RECURSIVE SubSeqOf(_, _)
+SubSeqOf(u, t) == IF u = <<>> THEN TRUE ELSE IF t = <<>> THEN FALSE
+                  ELSE IF Head(u) = Head(t) THEN SubSeqOf(Tail(u), Tail(t)) ELSE SubSeqOf(u, Tail(t))
+FsmRecvTypes(h) == LET S == {j \in Kind(h, "fsm") : RecvType(h[j].b) # 0} IN
+                   [n \in 1..Cardinality(S) |-> RecvType(h[CHOOSE j \in S : Cardinality({x \in S : x <= j}) = n].b)]
 C27v(o) == LET h == o.h IN
   IF \E j \in Kind(h, "fsm") : ~FsmCellOK(h[j]) THEN "C27_FsmTable"
   ELSE IF o.wired /\ ~FsmChainOK(h) THEN "C27_FsmChain"
@@ -47,6 +55,7 @@ C27v(o) == LET h == o.h IN
   ELSE IF \E j \in Kind(h, "established") : \E x \in Kind(h, "released") \cup Kind(h, "aborted") : x < j THEN "C27_EstablishedBeforeEnd"
   ELSE IF o.wired /\ ~SentOK(h) THEN (IF SendFailedShape(h) THEN "C27_PduSentButSendFailed" ELSE "C27_PduSentMatchesWire")
   ELSE IF o.wired /\ o.ended /\ Types(h, "precv") # Types(h, "drecv") THEN "C27_PduRecvMatchesWire"
+  ELSE IF o.wired /\ ~SubSeqOf(FsmRecvTypes(h), Types(h, "precv")) THEN "C27_PduRecvMatchesFsm"
   \* what the peer's transport read is what this side's transport wrote: all of it when both ended released,
   \* a prefix of it when the association was aborted or the connection dropped (the rest was never read)
   ELSE IF o.wired /\ o.peer_ended /\ ~IsPre(o.peer_recv, Types(h, "dsent")) THEN "C27_SentMatchesPeer"
